@@ -728,6 +728,16 @@ fn limit_model(written: usize, k: usize, tables: bool) -> (CClass, Choices) {
 // one Utf8 larger than the pool that was read: up to 65534 slots in the input the writer has to produce a valid file, at
 // 65535 the long no longer fits and the writer has to refuse (JVMS 4.4.5: the slot after a long must exist and is unusable).
 
+/// a class file whose constant pool has exactly `count` slots (no long / double in it): an annotation array of distinct ints
+pub fn full_pool_class(count: usize) -> Option<Vec<u8>> {
+	use crate::classfile::model::{Annotation, ElementValue};
+	let model = |n: usize| CClass { minor: 0, major: 52, access: 0x21, name: "a/FullPool".into(), super_class: Some("java/lang/Object".into()), interfaces: vec![], fields: vec![], methods: vec![], attrs: vec![Attr::Annotations { visible: true, list: vec![Annotation { ty: "Lann/A;".into(), pairs: vec![("v".to_string(), ElementValue::Array((0..n).map(|k| ElementValue::Int(1000 + k as i32)).collect()))] }] }] };
+	let probe = encode(&model(10), &Choices::default()).ok()?;
+	let overhead = probe.pool_len - 10;
+	let e = encode(&model(count.checked_sub(overhead)?), &Choices::default()).ok()?;
+	if e.pool_len == count { Some(e.bytes) } else { None }
+}
+
 fn pool_limit(ctx: &mut Ctx) {
 	use crate::classfile::model::{Annotation, ElementValue};
 	use crate::jar::ByRef;
